@@ -740,3 +740,46 @@ func lemmaShowableKinds(k reflect.Kind) bool {
 //@ func lemmaShowableKinds
 //@   props C09
 //@   ensures result
+
+// ---------------------------------------------------------------------------
+// C30: every `range` over a map in the emitter, the builder, the compiler
+// entry points and the disassembler is insensitive to the iteration order.
+// A map-loop unit executes the body for two arbitrary distinct keys in both
+// orders from an arbitrary state and requires the same final state; a loop
+// marked `opt sorted` only collects the keys into a slice that the next
+// statement sorts.
+// ---------------------------------------------------------------------------
+
+//@ maploop (*functionBuilder).end 0
+//@   props C30
+
+//@ maploop (*functionBuilder).end 1
+//@   props C30
+
+//@ maploop (*emitter).emitPackage 0
+//@   props C30
+//@   opt puremethods Kind
+
+//@ maploop (*emitter).emitNodes 0
+//@   props C30
+
+//@ maploop (*emitter).emitAssignmentNode 0
+//@   props C30
+
+//@ maploop (*emitter).emitImport 0
+//@   props C30
+
+//@ maploop (*emitter).emitImport 1
+//@   props C30
+
+//@ maploop Disassemble 1
+//@   props C30
+//@   opt sorted yes
+
+//@ maploop Disassemble 2
+//@   props C30
+//@   opt sorted yes
+
+//@ maploop disassembleFunction 0
+//@   props C30
+//@   opt sorted yes
